@@ -8,7 +8,7 @@ R = {
  "C01-2": (False, "change is in TcpConnection::negotiate_connection (async fn over TcpStream): the dialed-peer comparison is listed under not_decided for C01"),
  "C02-1": (True, "noise_socket::c02_poll_write_step (Kani): chunk j must be data[total..] (in order, contiguous) and encrypted_len must equal the end of the last frame"),
  "C02-2": (True, "noise_read::NoiseSocket::reset_read_state (Verus): carried byte must be old read_buffer[nread-1] — caught after the read path was brought under contract; missed before (read path was unverified)"),
- "C03-1": (False, "WebRtcDialerState::propose (message-based dialer) runs on bytes::Bytes; a 0..=3-fallback ordering harness with constant names did not finish in 30 min under Kani; not_decided for C03"),
+ "C03-1": (True, "msdialer::WebRtcDialerState::propose (Verus): the names still to be proposed, most preferred first, equal the given fallback list — caught after the message-based dialer was brought under contract in Verus (Bytes opaque); missed before (Kani ordering harness timed out)"),
  "C03-2": (True, "length_delimited::c03_ld_write_buffer_step (Kani): Ready(Ok) => write buffer empty"),
  "C04-1": (True, "substream::c04_poll_next_identity_step (Kani): after a delivered frame the read buffer still holds >= n bytes"),
  "C04-2": (True, "substream::c04_sink_start_send (Kani): refused exactly when len > max"),
@@ -22,9 +22,13 @@ R = {
  "C16-2": (True, "target_peers::c16_new_quorum_empty_targets (Kani, natively replayed): required acknowledgements >= 1 for an empty target set — caught after the harness for `new` was added; missed before"),
  "C18-1": (True, "peer_id::PeerId::from_public_key_protobuf (Verus): len <= 42 => identity multihash — caught after the Verus unit was added; missed before"),
  "C18-2": (True, "peer_id::c18_from_multihash_agrees_with_reference and c18_from_multihash_contract (Kani, natively replayed)"),
- "C19-1": (False, "Message::decode runs on bytes::Bytes (Kani: 6 input bytes > 5 min in the design phase): not_decided for C19"),
+ "C19-1": (True, "msproto::Message::decode (Verus): `tail[len - 1]` underflow is an undischarged obligation — caught after Message::decode was brought under contract in Verus (Bytes opaque); missed before"),
  "C19-2": (True, "substream::c04_read_payload_size (Kani): NotEnoughBytes => len < 10"),
  "C20-1": (True, "bitswap_block::block_to_response (Verus): the cid's multihash is wrap(code(H), digest(H)) of the hash of exactly the data — the announced length must not matter"),
+ "C08-1": (True, "transport_service::TransportService::on_connection_closed (Verus): a connection id that is neither primary nor secondary disturbs nothing (the seed re-introduces defect F6)"),
+ "C08-2": (False, "ProtocolSet::report_connection_closed (order of notifying protocols vs manager) is an async fn over channels: the cross-component ordering is not_decided for C08"),
+ "C13-1": (False, "RequestResponseProtocol::on_connection_established is an async fn (Verus has no async; Kani cannot compile the tokio types): everything after acceptance is not_decided for C13"),
+ "C13-2": (False, "RequestResponseProtocol::on_inbound_substream (inbound concurrency bound) is an async fn: not_decided for C13"),
  "C20-2": (False, "config constant MAX_BATCH_SIZE: the relation between batch size and the protobuf-encoded message size (send_response, async) is not_decided for C20"),
 }
 for k, (det, why) in R.items():
